@@ -63,6 +63,10 @@ def draw_mapping_cfg(rng, W, **force):
         # rare large counts: past 2**8 votes per (cell, child), and counts whose vote shares k/n sit exactly on a
         # 4-decimal rounding boundary (n = 32, 160)
         n_iter = rng.choice([32, 160, 256, 300])
+    elif rng.random() < 0.004:
+        # very rarely thousands of iterations: one vote then weighs less than 1e-3, the scale at which a "small"
+        # tie-break term added to a vote share starts to outweigh real votes
+        n_iter = rng.choice([2000, 4000])
     cfg = {
         'chunk_size': rng.randint(1, n + 3),
         'n_processors': rng.randint(1, 6),
